@@ -166,7 +166,18 @@ static std::string check_c04(const KV &c) {
     case 2: {
         int rc = ascon_prf_short(o.nn(), outlen, m.nn(), m.n, k.p);
         bool bad = msg.size() > 16 || outlen > 16;
-        if (bad) return rc == -1 ? "" : "ascon_prf_short(in " + num(msg.size()) + ", out " + num(outlen) + ") returned " + std::to_string(rc) + " want -1";
+        if (bad) {
+            if (rc != -1) return "ascon_prf_short(in " + num(msg.size()) + ", out " + num(outlen) + ") returned " + std::to_string(rc) + " want -1";
+            // lengths whose low 32 bits look valid: refused all the same, and nothing is read or written (the buffers are tiny)
+            static const size_t ABSURD[6] = {((size_t)1 << 32) + 4, ((size_t)1 << 32), ((size_t)1 << 63) + 16, ((size_t)7 << 32) + 16, (size_t)-1, ((size_t)1 << 40) + 1};
+            size_t big = ABSURD[(msg.size() + outlen) % 6];
+            Buf so(16, 0x6D), si(16, 0x11);
+            int r1 = ascon_prf_short(so.p, 16, si.p, big, k.p), r2 = ascon_prf_short(so.p, big, si.p, 4, k.p);
+            if (r1 != -1) return "ascon_prf_short(in " + num(big) + ", out 16) returned " + std::to_string(r1) + " want -1";
+            if (r2 != -1) return "ascon_prf_short(in 4, out " + num(big) + ") returned " + std::to_string(r2) + " want -1";
+            for (size_t i = 0; i < 16; ++i) if (so.p[i] != 0x6D) return "ascon_prf_short wrote output although it reported -1";
+            return "";
+        }
         if (rc != 0) return "ascon_prf_short returned " + std::to_string(rc) + " for valid sizes";
         if (o.bytes() != ref::prf_short(key, msg, outlen)) return "ascon_prf_short (in " + num(msg.size()) + ", out " + num(outlen) + ") differs from reference";
         return ""; }
@@ -259,7 +270,18 @@ static std::string check_c05(const KV &c) {
         bool a = mode == 1;
         Buf o(outlen);
         int rc = a ? ascon_hkdfa(o.nn(), outlen, k.p, k.n, s.p, s.n, in.p, in.n) : ascon_hkdf(o.nn(), outlen, k.p, k.n, s.p, s.n, in.p, in.n);
-        if (outlen > 8160) return rc == -1 ? "" : M + "(outlen " + num(outlen) + ") returned " + std::to_string(rc) + " want -1";
+        if (outlen > 8160) {
+            if (rc != -1) return M + "(outlen " + num(outlen) + ") returned " + std::to_string(rc) + " want -1";
+            // lengths that wrap a rounding computation: the request must be refused before a single byte is written,
+            // so a 40-byte buffer is all a caller needs to hold
+            static const size_t ABSURD[8] = {(size_t)-1, (size_t)-2, (size_t)-17, (size_t)-31, (size_t)-32, ((size_t)1 << 63) + 5, ((size_t)1 << 32) + 7, ((size_t)255 << 56)};
+            size_t big = ABSURD[(outlen + key.size() + info.size()) % 8];
+            Buf small(40, 0x6D);
+            int rc2 = a ? ascon_hkdfa(small.p, big, k.p, k.n, s.p, s.n, in.p, in.n) : ascon_hkdf(small.p, big, k.p, k.n, s.p, s.n, in.p, in.n);
+            if (rc2 != -1) return M + "(outlen " + num(big) + ") returned " + std::to_string(rc2) + " want -1";
+            for (size_t i = 0; i < 40; ++i) if (small.p[i] != 0x6D) return M + "(outlen " + num(big) + ") wrote to the output although it refused the request";
+            return "";
+        }
         if (rc != 0) return M + "(outlen " + num(outlen) + ") returned " + std::to_string(rc) + " want 0";
         if (o.bytes() != ref::hkdf(a, key, salt, info, outlen)) return M + " (out " + num(outlen) + ", key " + num(key.size()) + ", salt " + num(salt.size()) + ", info " + num(info.size()) + ") differs from RFC 5869 over ASCON-HMAC";
         return "";
